@@ -333,13 +333,14 @@ fn default_ulps<X: UlpsEq>(_: &X) -> u32 {
 
 fn finite_zero<T: Fl, C: Fin<T>>(rep: &mut Report) {
     let n = C::N;
-    let specials = [T::nan(), T::infinity(), T::neg_infinity(), T::max_value(), T::min_positive_value()];
+    // (zero, negative zero and subnormals are finite too: is_normal() is not is_finite())
+    let specials = [T::nan(), T::infinity(), T::neg_infinity(), T::max_value(), T::min_positive_value(), T::zero(), T::neg_zero(), T::zero().step(1), T::min_positive_value() / T::c(4.0), -T::max_value()];
     let small: Vec<T> = vec![T::zero(), T::neg_zero(), T::zero().step(1), T::epsilon() * T::c(0.5), T::epsilon(), T::epsilon().step(1), T::epsilon() * T::c(2.0), T::c(1e-3), -T::epsilon(), -T::epsilon() * T::c(2.0), T::c(0.5e-6), T::c(1e-6), T::c(1e-6).step(1), T::c(-2e-6)];
     let total = 1 + n * specials.len() + n * small.len() + n * (n - 1).max(1) * 2;
     rep.cases(
         &format!("finite+zero/{}", C::NAME),
         T::NAME,
-        &format!("each of {n} components set to NaN, +-inf, MAX, MIN_POSITIVE (is_finite); zero value with each component set to each of {} near-zero values, and pairs (is_zero)", small.len()),
+        &format!("each of {n} components set to NaN, +-inf, +-MAX, MIN_POSITIVE, +-0, subnormals (is_finite); zero value with each component set to each of {} near-zero values, and pairs (is_zero)", small.len()),
         total,
         Guard::states(5).distinct(3),
         |i, ctx| {
@@ -383,12 +384,23 @@ fn finite_zero<T: Fl, C: Fin<T>>(rep: &mut Report) {
             }
             ctx.describe(|| format!("{} {:?}", C::NAME, c));
             ctx.out(&keys(&c));
+            ctx.check(C::finite(&c), &key(&format!("{}/is_finite", C::NAME)), || format!("is_finite() is false for the finite components {:?}", c));
             if let Some((got, ulps)) = C::zero(&c) {
                 let exp = match ulps {
                     Some((e, u)) => c.iter().all(|x| x.ulps_eq(&T::zero(), e, u)),
                     None => c.iter().all(|x| *x == T::zero()),
                 };
-                ctx.check(got == exp, &key(&format!("{}/is_zero", C::NAME)), || format!("is_zero() = {got}, component-wise {} gives {exp}", if ulps.is_some() { "ulps_eq(c, 0) with the type's default tolerances" } else { "c == 0" }));
+                // "ulps-equals zero": with the compound type's own default tolerances (what cgmath does) or with the scalar's
+                // (the other reading of the statement); where the two readings differ the statement does not decide
+                let exp_scalar = match ulps {
+                    Some(_) => c.iter().all(|x| x.ulps_eq(&T::zero(), T::default_epsilon(), T::default_max_ulps())),
+                    None => exp,
+                };
+                if exp == exp_scalar {
+                    ctx.check(got == exp, &key(&format!("{}/is_zero", C::NAME)), || format!("is_zero() = {got}, component-wise {} gives {exp}", if ulps.is_some() { "ulps_eq(c, 0)" } else { "c == 0" }));
+                } else {
+                    ctx.branch("is_zero-readings-differ-not-judged");
+                }
             }
         },
     );
@@ -458,7 +470,13 @@ fn matrix_predicates<T: Fl, M: MatN<T, N> + UlpsEq + AbsDiffEq<Epsilon = T>, con
             let exp_ident = (0..N).all(|a| (0..N).all(|b| e[a][b].ulps_eq(&idm[a][b], me, mu)));
             let exp_diag = (0..N).all(|a| (0..N).all(|b| a == b || ueq(e[a][b], T::zero())));
             let exp_sym = (0..N).all(|a| (0..N).all(|b| ueq(e[a][b], e[b][a])));
-            ctx.check(m.is_identity() == exp_ident, &key(&format!("{}/is_identity", M::NAME)), || format!("is_identity() = {}, ulps comparison with identity() gives {exp_ident}", m.is_identity()));
+            // (the comparison with identity() under the matrix type's default tolerances or under the scalar's: judged where the two agree)
+            let exp_ident_s = (0..N).all(|a| (0..N).all(|b| ueq(e[a][b], idm[a][b])));
+            if exp_ident == exp_ident_s {
+                ctx.check(m.is_identity() == exp_ident, &key(&format!("{}/is_identity", M::NAME)), || format!("is_identity() = {}, ulps comparison with identity() gives {exp_ident}", m.is_identity()));
+            } else {
+                ctx.branch("is_identity-readings-differ-not-judged");
+            }
             ctx.check(m.is_diagonal() == exp_diag, &key(&format!("{}/is_diagonal", M::NAME)), || format!("is_diagonal() = {}, ulps comparison of every off-diagonal element with 0 gives {exp_diag}", m.is_diagonal()));
             ctx.check(m.is_symmetric() == exp_sym, &key(&format!("{}/is_symmetric", M::NAME)), || format!("is_symmetric() = {}, ulps comparison of every element with its mirror image gives {exp_sym}", m.is_symmetric()));
             let det = m.determinant();
@@ -477,13 +495,23 @@ fn matrix_predicates<T: Fl, M: MatN<T, N> + UlpsEq + AbsDiffEq<Epsilon = T>, con
     for i in 0..N {
         tiny_scale[i][i] = T::epsilon() * T::c(0.1);
     }
-    let cands = [("singular", sing), ("nearly singular (1 ulp)", near), ("regular", g), ("tiny multiple of the identity", tiny_scale), ("zero", [[T::zero(); N]; N])];
-    rep.cases(&format!("is_invertible/{}", M::NAME), T::NAME, "singular, 1 ulp from singular, regular, tiny, zero", cands.len(), Guard::states(5), |i, ctx| {
+    let mut cands: Vec<(&'static str, [[T; N]; N])> = vec![("singular", sing), ("nearly singular (1 ulp)", near), ("regular", g), ("tiny multiple of the identity", tiny_scale), ("zero", [[T::zero(); N]; N])];
+    // determinants placed in and around the band the ulps comparison with 0 accepts: diag(1, .., 1, d) has determinant d exactly
+    for d in [0.5, 1.0, 1.5, 2.0, 3.0, 16.0, 250.0, -0.5, -1.0, -3.0] {
+        let mut m = [[T::zero(); N]; N];
+        for i in 0..N {
+            m[i][i] = T::one();
+        }
+        m[N - 1][N - 1] = T::epsilon() * T::c(d);
+        cands.push(("diag(1, .., 1, d) with d in the epsilon band", m));
+    }
+    rep.cases(&format!("is_invertible/{}", M::NAME), T::NAME, "singular, 1 ulp from singular, regular, tiny, zero, and determinants of exactly d = 0.5 .. 250 epsilon (both signs)", cands.len(), Guard::states(5).need("invertible", 3).need("not-invertible", 3), |i, ctx| {
         let m = M::mk(cands[i].1);
         ctx.describe(|| format!("{} {}: {:?}", M::NAME, cands[i].0, cands[i].1));
         ctx.out(&i);
         let det = m.determinant();
         let exp = !ueq(det, T::zero());
+        ctx.branch(if exp { "invertible" } else { "not-invertible" });
         ctx.check(m.is_invertible() == exp, &key(&format!("{}/is_invertible", M::NAME)), || format!("is_invertible() = {}, determinant() = {:?}", m.is_invertible(), det));
     });
 }
